@@ -113,7 +113,20 @@ where
                     Operator::Plus => v_left.plus(v_right),
                     Operator::Minus => v_left.minus(v_right),
                     Operator::Multiply => v_left.multiply(v_right),
-                    Operator::Divide => v_left.divide(v_right),
+                    Operator::Divide => {
+                        // the result of a division is a floating point number,
+                        // a double if any of the operands is a double
+                        let is_double = matches!(v_left, Variant::VDouble(_))
+                            || matches!(v_right, Variant::VDouble(_));
+                        v_left.divide(v_right).map(|v| match v {
+                            Variant::VInteger(i) if is_double => Variant::VDouble(i as f64),
+                            Variant::VLong(l) if is_double => Variant::VDouble(l as f64),
+                            Variant::VSingle(f) if is_double => Variant::VDouble(f as f64),
+                            Variant::VInteger(i) => Variant::VSingle(i as f32),
+                            Variant::VLong(l) => Variant::VSingle(l as f32),
+                            _ => v,
+                        })
+                    }
                     Operator::Modulo => v_left.modulo(v_right),
                     Operator::And => v_left.and(v_right),
                     Operator::Or => v_left.or(v_right),
